@@ -16,6 +16,6 @@ Extraction "../ocaml/model.ml"
   init_rows init_sym_random init_diag_random init_from_gen init_from_ass zeros
   passb loop_step realization realization_tr max_L2 run run_tr
   validate factorize factorize_starts w_of_flat_gen w_of_flat_ass flat_of_w_gen flat_of_w_ass
-  idx unidx idx_gen idx_ass cxx_idx cxx_transpose_perm cxx_diag_dims cxx_diag_access cxx_sym_dims
+  idx unidx t_make t_resize t_idx idx_gen idx_ass cxx_idx cxx_transpose_perm cxx_diag_dims cxx_diag_access cxx_sym_dims
   cxx_eval_period
   parse_adjacency read_affinity render_nat membership_rows affinity_rows opt_exists opt_value.
